@@ -24,7 +24,22 @@ INVARIANTS = {}       # (target, ordinal) -> dict(over=<text of iteration expr /
 
 def invariant(target, ordinal, over):
   def deco(fn):
-    INVARIANTS[(target, ordinal)] = dict(over=over, inv=fn)
+    INVARIANTS.setdefault((target, ordinal), dict(over=over, inv=None))['inv'] = fn
+    return fn
+  return deco
+
+
+ZERO_EXIT = set()      # loops for which the zero-iteration exit is kept as a separate path (entry state untouched)
+
+
+def zero_exit(target, ordinal):
+  ZERO_EXIT.add((target, ordinal))
+
+
+def at_break(target, ordinal, over):
+  """assertion that must hold whenever the loop is left through `break` (proved on every break path)"""
+  def deco(fn):
+    INVARIANTS.setdefault((target, ordinal), dict(over=over, inv=None))['at_break'] = fn
     return fn
   return deco
 
@@ -384,6 +399,9 @@ def one_loop(ex, st, p, it, module, is_for, inv, target, ordinal, optional=froze
   selfv = p.env.get('self')
   tag = '%s/loop%s@L%d' % (target, ordinal, st.lineno)
   # ---- invariant at entry
+  brk = inv.get('at_break') if inv is not None else None
+  if inv is not None and inv.get('inv') is None:
+    inv = None
   if inv is not None:
     g = inv['inv'](view(ex, p), None)
     p.side.append(('loop-inv-init', tag, list(p.pc), g, 'value invariant holds on entry'))
@@ -480,6 +498,9 @@ def one_loop(ex, st, p, it, module, is_for, inv, target, ordinal, optional=froze
       q.side.append(('loop-shape', tag, list(q.pc), z3.And(*conds), 'arrays written by the loop keep their shape'))
     if inv is not None:
       q.side.append(('loop-inv-preserved', tag, list(q.pc), inv['inv'](view(ex, q), view(ex, head)), 'value invariant re-established'))
+  if brk is not None:
+    for q in breaks:
+      q.side.append(('loop-at-break', tag, list(q.pc), brk(view(ex, q), view(ex, head)), 'assertion at every `break` of the loop'))
   # side obligations discovered inside the body must survive even though the iteration paths are dropped:
   # they are attached to the exit path
   carried = []
@@ -531,8 +552,17 @@ def one_loop(ex, st, p, it, module, is_for, inv, target, ordinal, optional=froze
       if note not in exit_p.notes:
         exit_p.notes.append(note)
   out = []
+  zero_paths = []
+  if is_for and n_iter is not None and z3.is_expr(n_iter) and (target, ordinal) in ZERO_EXIT:
+    # zero iterations: the entry state survives untouched (more precise than the havoc state)
+    zero = p.fork()
+    zero.assume(n_iter <= 0)
+    if feasible(zero.pc):
+      zero.events.append(('loop-writes', target, ordinal, tuple(sorted(n_ for n_ in names if n_ in head_env))))
+      zero_paths.append(zero)
+    exit_p.assume(n_iter >= 1)
   if is_for:
-    exits = [exit_p]
+    exits = ([exit_p] if feasible(exit_p.pc) else []) + zero_paths
   else:
     exits = []
     for q, c in ex.ev(st.test, exit_p, module):
